@@ -1025,7 +1025,8 @@ class StubsStringGenerator:
             # Get alias
             alias = None
             for qualified_import in shortest_reexport_module.qualified_imports:
-                if qualified_import.qualified_name.endswith(node.name):
+                # The alias of "BigThing" is not the alias of "Thing"
+                if qualified_import.qualified_name.split(".")[-1] == node.name:
                     alias = qualified_import.alias
 
             if alias:
